@@ -184,6 +184,18 @@ check('C17', 'E2', 'model_checking',
       'when the snapshot is restored before the last document.',
       'DESIGN.md 2/C17')
 
-_PENDING = {'C06': 'check not built yet in this round (planned: bounded exhaustive exploration, see DESIGN.md section 2)', 'C10': 'check not built yet in this round (planned: bounded exhaustive exploration, see DESIGN.md section 2)', 'C11': 'check not built yet in this round (planned: bounded exhaustive exploration, see DESIGN.md section 2)', 'C13': 'check not built yet in this round (planned: bounded exhaustive exploration, see DESIGN.md section 2)', 'C15': 'check not built yet in this round (planned: bounded exhaustive exploration, see DESIGN.md section 2)', 'C18': 'check not built yet in this round (planned: bounded exhaustive exploration, see DESIGN.md section 2)', 'C19': 'check not built yet in this round (planned: bounded exhaustive exploration, see DESIGN.md section 2)'}
+check('C18', 'E1', 'exploration',
+      'bounded exhaustive enumeration of index entry sequences against a reference index builder',
+      'Every sequence with repetition of <= 2 (all splits) / 3 (quick), up to 5 (thorough, reduced menu) entries from a menu of '
+      '20 entry ASTs (levels, sort@display keys on either level, |see, |seealso, |format, quoted specials, accents, digits, '
+      'symbols, ligatures) is printed into a two-section article with \\printindex or a theindex environment and parsed; the '
+      'entry count, the section of every \\index node, the complete index tree (sort key, display, markup, per page: node rank, '
+      'see/seealso/normal, format, ordinal) and the letter groups with their column split for index-columns 1..4 are compared '
+      'with an independent reference builder using UCA collation (pyuca).',
+      'Trusted: vp/refs/index_model.py and pyuca\'s UCA keys; the relative order of adjacent siblings with equal collation keys '
+      'is not judged.',
+      'DESIGN.md 2/C18')
+
+_PENDING = {'C06': 'check not built yet in this round (planned: bounded exhaustive exploration, see DESIGN.md section 2)', 'C10': 'check not built yet in this round (planned: bounded exhaustive exploration, see DESIGN.md section 2)', 'C11': 'check not built yet in this round (planned: bounded exhaustive exploration, see DESIGN.md section 2)', 'C13': 'check not built yet in this round (planned: bounded exhaustive exploration, see DESIGN.md section 2)', 'C15': 'check not built yet in this round (planned: bounded exhaustive exploration, see DESIGN.md section 2)', 'C19': 'check not built yet in this round (planned: bounded exhaustive exploration, see DESIGN.md section 2)'}
 for _p, _why in _PENDING.items():
     NOT_APPLICABLE.append({'property_id': _p, 'reason': _why})
